@@ -29,7 +29,7 @@ def pairs():
                          # the caller's region is modelled by a 1-byte object (addresses only): pointer differences inside the real region
                          # would be flagged as leaving that object, so pointer checks are off for this pair (bounds/overflow/shift checks stay on)
                          cbmc_flags=["--no-pointer-check"]),
-      "clear_abandoned": P("clear_abandoned", "_mi_arena_segment_clear_abandoned", ["_mi_bitmap_unclaim/c_bitmap_unclaim_ab", "_mi_thread_id"], config="SCALED", entry="h_clear_abandoned", timeout=1800),   # ~340 s unloaded
+      "clear_abandoned": P("clear_abandoned", "_mi_arena_segment_clear_abandoned", ["_mi_bitmap_unclaim/c_bitmap_unclaim_ab", "_mi_thread_id"], config="SCALED", entry="h_clear_abandoned", timeout=1800, objbits=10),   # ~340 s unloaded
       "mark_abandoned": P("mark_abandoned", "_mi_arena_segment_mark_abandoned", ["_mi_bitmap_claim/c_bitmap_claim_ab"], config="SCALED", entry="h_mark_abandoned", solver="cadical"),
       "clear_abandoned_at": P("clear_abandoned_at", "mi_arena_segment_clear_abandoned_at", ["_mi_bitmap_unclaim/c_bitmap_unclaim_ab", "_mi_bitmap_claim/c_bitmap_claim_ab", "mi_arena_block_start/c_arena_block_start_use"], config="SCALED", entry="h_clear_abandoned_at"),
       "os_clear_abandoned": P("os_clear_abandoned", "mi_arena_segment_os_clear_abandoned", ["_mi_thread_id"], config="SCALED", entry="h_os_clear_abandoned"),
